@@ -37,6 +37,7 @@ package main
 // (what the theorems of Props/C10.lean promise for every schedule).
 
 import (
+	"errors"
 	"fmt"
 	"math/rand"
 	"os"
@@ -161,6 +162,16 @@ func (c *ccComp) Gen(r *rand.Rand, tier string) []string {
 			seq = append(seq, "del "+encPath(q))
 		case x < 94:
 			seq = append(seq, "get "+encPath(ccLit(r, 3)))
+		case x < 97:
+			// a query abandoned by its visitor, over a literal prefix, a glob, or the whole tree
+			q := ccLit(r, 2)
+			switch r.Intn(3) {
+			case 0:
+				q = append(q, "*")
+			case 1:
+				q = q[:r.Intn(len(q)+1)]
+			}
+			seq = append(seq, "qerr "+encPath(q))
 		default:
 			seq = append(seq, "walks")
 		}
@@ -241,7 +252,7 @@ func (c *ccComp) Run(args []string) string {
 		return "ok"
 	}
 	switch args[0] {
-	case "add", "del", "get", "walks":
+	case "add", "del", "get", "walks", "qerr":
 		// sequential operations on a small tree take microseconds: one that has not returned after the
 		// deadline is blocked for good (a lock left behind by an earlier operation) — the property
 		// promises the tree never deadlocks
@@ -280,6 +291,14 @@ func (c *ccComp) runSeq(args []string) string {
 		return fmt.Sprint(v)
 	case "walks":
 		return c.walks()
+	case "qerr":
+		// a query (or the cache walk of a subscription) abandoned because its visitor returned an error —
+		// the subscriber's queue was closed under the walk: every lock taken on the way down is released
+		// (seeded change c05_seed10 left the read locks of the fully specified path elements behind: the
+		// next writer there blocks for ever, and with it every later walk).  Nothing to observe here; the
+		// operations that follow show whether a lock stayed behind.
+		c.t.Query(decPath(args[1]), func([]string, *ctree.Leaf, interface{}) error { return errors.New("visitor gave up") })
+		return "ok"
 	case "_stats": // manual use only (never generated): how many window schedules were really forced
 		return fmt.Sprintf("forced=%d search-gave-up=%d", atomic.LoadInt64(&ccForced), atomic.LoadInt64(&ccGaveUp))
 	case "win", "win2":
